@@ -64,15 +64,20 @@ def append_unit(U):
                 U.prove(f"{nm}.stored_frame_equals_data_at_the_moment_of_appending_even_after_later_writes", Pj, _same(data[-1], snapshot, j))
 
 
+TMPL: dict = {}
+
+
 def start_writing_unit(U):
     for mode in ("truncate", "truncate_once", "append", "readonly", "bogus"):
         def body(it, mode=mode):
             it.ctx.assume(N >= 1)
             st, frames, times, grid = _storage(it, 2, write_mode=mode)
+            st.attrs["_field"] = Instance(None, {}, name="template_of_an_earlier_session")
             tmpl = Instance(None, {}, name="field_copy")
             field = Instance(None, {"data": sym_array("fd", (N,)), "grid": grid, "dtype": Opaque("float"), "copy": lambda: tmpl,
                                     "attributes_serialized": {"class": "ScalarField"}}, name="field")
             it.call(it.getattr(st, "start_writing"), [field], {})
+            TMPL[id(st)] = tmpl
             return st, frames
 
         for p, res in enumerate(explore_paths(U, body)):
@@ -86,6 +91,7 @@ def start_writing_unit(U):
                 continue
             st, frames = res.value
             data, tms = st.attrs["data"], st.attrs["times"]
+            U.prove(f"{nm}.template_for_reading_is_a_copy_of_this_session's_field", P, z3.BoolVal(st.attrs.get("_field") is TMPL.get(id(st))))
             if mode == "append":
                 U.prove(f"{nm}.view_unchanged", P, z3.BoolVal(len(data) == 2 and data[0] is frames[0] and data[1] is frames[1] and len(tms) == 2 and st.attrs["write_mode"] == "append"))
             elif mode == "truncate":
